@@ -262,6 +262,39 @@ pub fn run(ctx: &Ctx, rep: &mut Report) {
             }
         }
     }
+    // (e) helper lists on a field / variant: one `#[derive_ex(A(..), B(..))]` == one list per trait, in either order,
+    //     adjacent or not
+    {
+        let shapes: [(&str, &[&str]); 4] = [
+            ("pub struct X<T>(§ Vec<T>, u8);", &["Clone", "Default", "Debug"]),
+            ("pub struct X<T> { q0: u8, § _q0: Option<T> }", &["PartialEq", "Hash", "Clone"]),
+            ("pub enum X<T> { A, B(§ Vec<T>, u8), C { q0: T } }", &["Clone", "Debug", "PartialEq"]),
+            ("pub enum X<T> { A, § B(Vec<T>, u8), C { q0: T } }", &["Clone", "Debug", "Hash"]),
+        ];
+        for (shape, traits) in shapes {
+            for k in 2..=traits.len() {
+                let ts: Vec<String> = traits[..k].iter().map(|t| t.to_string()).collect();
+                let per: Vec<String> = ts.iter().enumerate().map(|(i, t)| format!("{t}(bound(T: M{}, ..))", i + 1)).collect();
+                let merged = shape.replace('§', &format!("#[derive_ex({})]", per.join(", ")));
+                extra_seeds.push(Seed { origin: "field-level-lists".into(), attr: ts.join(", "), traits: ts.clone(), item: merged, entry: Entry::Attr, is_impl: false });
+                let si = extra_seeds.len() - 1;
+                let id: Vec<usize> = (0..k).collect();
+                let fwd: String = per.iter().map(|p| format!("#[derive_ex({p})] ")).collect();
+                let rev: String = per.iter().rev().map(|p| format!("#[derive_ex({p})] ")).collect();
+                let far: String = per.iter().map(|p| format!("#[doc = \" d\"] #[derive_ex({p})] #[allow(dead_code)] ")).collect();
+                for split in [fwd, rev, far] {
+                    for entry in Entry::BOTH {
+                        let item = shape.replace('§', split.trim_end());
+                        let (attr, item) = match entry {
+                            Entry::Attr => (ts.join(", "), item),
+                            Entry::Derive => (String::new(), format!("#[derive_ex({})] {item}", ts.join(", "))),
+                        };
+                        extra_jobs.push((si, Job { seed: 0, kind: "field-level-split", entry, attr, item, traits: ts.clone(), map: id.clone() }));
+                    }
+                }
+            }
+        }
+    }
     let base_n = seeds.len();
     for (k, mut j) in extra_jobs {
         j.seed = base_n + k;
